@@ -58,11 +58,23 @@ def _register(rng, kind: str) -> int:
                 0x0D0A, 0x0A0D, 0x0A, 0x0D, 0x2829, 0x28292829, 0x2F, 0x21, 0x7E, 0x7D, 0x7E7E, 0x0906, 0x0C07, 0xFF, 0xFFFF, 0x2E, 0x3A]
         v = rng.choice(pool)
         return min(max(v, lo), hi)
+    if r < 0.42:
+        # registers whose octets spell a fragment of the COSEM grammar itself (element headers, tags, scaler-unit, clock prefix):
+        # anything that looks for structure in the raw message finds one more than was sent
+        frag = rng.choice(GRAMMAR_FRAGMENTS) if rng.random() < 0.7 else bytes(rng.choice(TAG_OCTETS) for _ in range(4))
+        v = int.from_bytes(frag[: 4 if hi > 65535 else 2], "big")
+        return min(max(v, lo), hi)
     if r < 0.6:
         return rng.randint(max(lo, -3000), min(hi, 3000))
     return rng.randint(lo, hi)
 
 
+GRAMMAR_FRAGMENTS = (bytes.fromhex("02020906"), bytes.fromhex("02030906"), bytes.fromhex("09060100"), bytes.fromhex("09060000"), bytes.fromhex("0101020x".replace("x", "2")),
+                     bytes.fromhex("0f00161b"), bytes.fromhex("0202"), bytes.fromhex("0203"), bytes.fromhex("0201"), bytes.fromhex("0112"), bytes.fromhex("0a10"), bytes.fromhex("090c07e4"),
+                     bytes.fromhex("0c07e809"), bytes.fromhex("e6e7000f"), bytes.fromhex("0f400000"), bytes.fromhex("0600"), bytes.fromhex("1200"), bytes.fromhex("1000"), bytes.fromhex("0000"),
+                     bytes.fromhex("ff800000"), bytes.fromhex("0109060001"), bytes.fromhex("16231d1e"))
+TAG_OCTETS = (0x00, 0x01, 0x02, 0x03, 0x06, 0x09, 0x0A, 0x0C, 0x0F, 0x10, 0x11, 0x12, 0x16, 0x1B, 0x1D, 0x1E, 0x20, 0x21, 0x23, 0xFF)
+CONTROL = [chr(c) for c in range(0x20)] + ["\x7f"]
 DOCUMENTED_TEXT = ("KFM_001", "AIDON_V0001", "Kamstrup_V0001", "6970631402614476", "MA304H3E", "MA304H4", "7359992892587665", "6525", "5706567000000000",
                    "6841121BN243101040", "6861111BN242101040")
 TOKENS = ("value", "datetime", "content", "length", "obis", "type", "index", "None", "null", "nan", "inf", "0", "-1", "1e5", "items", "keys", "__class__")
@@ -81,7 +93,38 @@ def ascii_text(rng, max_len: int = 18, min_len: int = 0, lengths=None) -> str:
         t = rng.choice(TOKENS)
         return (rng.choice(("", "A_", "no-")) + t + rng.choice(("", "_V1", "-set")))[:max_len]
     n = rng.choice(lengths) if lengths else rng.randint(min_len, max_len)
+    if r > 0.86 and n:
+        # ASCII is 0..127: fixed-width fields filled up with NUL or blanks, control characters, fragments of the COSEM grammar inside the text
+        t = [rng.choice(PRINTABLE) for _ in range(n)]
+        style = rng.choice(("nul_filled", "blank_filled", "control_anywhere", "grammar_fragment", "leading_nul"))
+        if style in ("nul_filled", "blank_filled"):
+            k = rng.randint(1, n)
+            t[n - k :] = ("\x00" if style == "nul_filled" else " ") * k
+        elif style == "leading_nul":
+            t[0] = "\x00"
+        elif style == "control_anywhere":
+            for _ in range(rng.randint(1, 3)):
+                t[rng.randrange(n)] = rng.choice(CONTROL)
+        else:
+            frag = rng.choice([f for f in GRAMMAR_FRAGMENTS if all(b < 0x80 for b in f)]).decode("ascii")
+            i = rng.randrange(n)
+            t[i : i + len(frag)] = frag
+        return "".join(t)[:n]
     return "".join(rng.choice(PRINTABLE) for _ in range(n))
+
+
+SENTINEL_INSTANTS = ((2000, 1, 1, 0, 0, 0), (1970, 1, 1, 0, 0, 0), (1900, 1, 1, 0, 0, 0), (1, 1, 1, 0, 0, 0), (9999, 12, 31, 23, 59, 59), (2038, 1, 19, 3, 14, 7), (2038, 1, 19, 3, 14, 8),
+                     (1999, 12, 31, 23, 59, 59), (2001, 1, 1, 0, 0, 0), (1980, 1, 6, 0, 0, 0), (1601, 1, 1, 0, 0, 0), (1904, 1, 1, 0, 0, 0), (2106, 2, 7, 6, 28, 15), (2000, 1, 1, 12, 0, 0),
+                     (2024, 1, 1, 0, 0, 0), (2024, 12, 31, 23, 59, 59), (2000, 1, 1, 0, 0, 1), (2000, 2, 29, 0, 0, 0), (2100, 1, 1, 0, 0, 0), (1, 1, 1, 0, 0, 1))
+
+
+def clock_code(rng, default: tuple, tags: list) -> tuple:
+    """The OBIS code in front of a list's clock element: usually the vendor's own, sometimes another code of the clock object
+    (value groups C.D.E = 1.0.0 name the clock whatever A, B and F say; vendors differ in exactly these groups)."""
+    if rng.random() < 0.85:
+        return default
+    tags.append("clock_under_another_obis_code")
+    return (rng.choice((0, 0, 1, rng.randrange(256))), rng.choice((0, 1, 2, rng.randrange(256))), 1, 0, 0, rng.choice((255, 255, rng.randrange(256))))
 
 
 def gen_datetime(rng):
@@ -109,6 +152,13 @@ def gen_datetime(rng):
         else:
             year, month, day, hour, minute = 9999, 12, 31, 23, rng.randrange(60)
             deviation = rng.choice((720, 60, 1, 120, -60, None))
+    if rng.random() < 0.06:
+        # instants that programs use as "no value": epochs, the first / last second of a century, of a year, exact midnight / noon
+        year, month, day, hour, minute, second = rng.choice(SENTINEL_INSTANTS)
+        if rng.random() < 0.3 and (month, day) != (2, 29):
+            year = rng.randint(2, 9998)
+        hundredths = rng.choice((None, 0, 0, hundredths))
+        deviation = rng.choice((None, None, 0, deviation)) if 2 <= year <= 9998 else None
     dt12 = ce.datetime12(year, month, day, dow, hour, minute, second, hundredths, deviation, status)
     spec = {"civil": [year, month, day, hour, minute, second], "us": 0 if hundredths is None else hundredths * 10000,
             "offset_min": None if deviation is None else -deviation, "status": status, "deviation": deviation, "hundredths": hundredths}
@@ -151,6 +201,9 @@ def check_datetime(got, spec) -> str | None:
     return None
 
 
+TRAILING_NUL = "trailing-nul-stripped"  # mechanism tag: the text came back without its trailing NUL characters, otherwise verbatim
+
+
 def compare_value(got, want) -> str | None:
     kind, v = want
     if kind == "int":
@@ -168,6 +221,8 @@ def compare_value(got, want) -> str | None:
             return f"{got!r} differs from {float(exact)!r} by more than 2^-50 relative"
     elif kind == "str":
         if got != v or not isinstance(got, str):
+            if isinstance(got, str) and v.endswith("\x00") and got == v.rstrip("\x00"):
+                return f"{TRAILING_NUL}: {got!r} != {v!r}"
             return f"{got!r} != {v!r}"
     elif kind == "dt":
         return check_datetime(got, v)
@@ -261,7 +316,7 @@ def aidon_case(rng, layout: str | None = None) -> Case:
             expect[names.name_of(A_TYPE)] = ("str", s)
         elif it == "clock":
             dt12, spec = gen_datetime(rng)
-            elements.append(ce.aidon_element(A_CLOCK, "datetime", dt12))
+            elements.append(ce.aidon_element(clock_code(rng, A_CLOCK, tags), "datetime", dt12))
             expect["meter_datetime"] = ("dt", spec)
         else:
             code, kind, exp, unit = it
@@ -328,7 +383,7 @@ def kaifa_case(rng, layout: str | None = None) -> Case:
         pairs = []
         for name in order:
             enc, exp = _kaifa_value(rng, name, tags)
-            pairs.append((K_OBIS[name], enc))
+            pairs.append((clock_code(rng, K_OBIS[name], tags) if name == "meter_datetime" else K_OBIS[name], enc))
             expect_body[name] = exp
         body = ce.kaifa_obis_body(pairs)
         dt12, tagged, _spec = apdu_variant(rng, allow_null=True)
@@ -413,7 +468,7 @@ def kamstrup_case(rng, layout: str | None = None, ct: bool | None = None) -> Cas
             expect["meter_type"] = ("str", mtype)
         elif it == "clock":
             dt12, spec = gen_datetime(rng)
-            pairs.append((KM_CLOCK, ce.datetime_octets(dt12)))
+            pairs.append((clock_code(rng, KM_CLOCK, tags), ce.datetime_octets(dt12)))
             expect["meter_datetime"] = ("dt", spec)
         else:
             code = it
